@@ -15,7 +15,7 @@ import os
 import re
 
 import pytree
-from checks import pygen, lexcommon as lx
+from checks import pygen, lexcommon as lx, syntaxrun as sr
 
 REN = {"Match": "match", "Case": "case", "Type": "type", "Name": "x", "Colon": ":", "Equal": "=", "Lpar": "(", "Rpar": ")",
        "Lsqb": "[", "Rsqb": "]", "Lbrace": "{", "Rbrace": "}", "Lambda": "lambda", "Comma": ",", "Dot": ".", "Semi": ";",
@@ -174,6 +174,7 @@ def run_streams(ctx):
             d = pytree.tree_diff(want, pytree.strip_ranges(pytree.from_rust(resp["ok"])))
             if d:
                 bad = "tree"
+                treesig = "tree@" + sr.tree_sig(d)
         if bad is None:
             if gap:
                 # decision differs from the reference role and yet the tree is right: the role computation is wrong
@@ -183,6 +184,9 @@ def run_streams(ctx):
             gaps += 1
             g = gap[0]
             ctx.mismatch("softkw.gap:%s=%s,reference=%s:%s" % (g[0], g[1], g[2], top_kinds(ref)), {"src": text, "decisions": s["out"]}, base)
+        elif bad == "tree" and not gap:
+            # the soft keywords were classified as the reference does: an ordinary tree difference, named as C01 names it
+            ctx.mismatch(treesig, {"src": text, "mode": s["mode"], "decisions": s["out"]}, base)
         else:
             ctx.mismatch("softkw.%s:%s:%s" % (bad, label, top_kinds(ref)), {"src": text, "decisions": s["out"], "observed": str(resp)[:300]}, base)
     ctx.extra["softkw_predicted_gaps"] = gaps
